@@ -73,8 +73,14 @@ func gsxStubRun(e *ruleguard.Engine, ctx *ruleguard.RunContext, f *ast.File) err
 		gsxEnv.runs++
 	}
 	gsxRunSeen, gsxRunVersion = true, ctx.GoVersion
+	for i := range gsxRunReports {
+		ctx.Report(&gsxRunReports[i])
+	}
 	return nil
 }
+
+// what the rule engine model reports during Run
+var gsxRunReports []ruleguard.ReportData
 
 type gsxWrapErr struct {
 	msg string
